@@ -40,6 +40,7 @@ pub fn truth(fam: &Family) -> (Vec<f64>, Vec<f64>) {
         Family::OLeary => (vec![1.0, 2.5, 4.0], vec![6.0, 1.0]),
         Family::ExpN(n) => ((0..*n).map(|j| 0.5 * 2.5f64.powi(j as i32)).collect(), (0..*n).map(|j| 1.0 + 0.5 * j as f64).collect()),
         Family::Perm4 => (vec![0.5, 2.0, 0.3, 0.2], vec![2.0, 1.0, 0.5]),
+        Family::XExpSin => (vec![1.5, 2.0], vec![2.0, 0.7]),
         Family::PolyMat(s) => (vec![0.5; s.p], (0..s.m).map(|j| 1.0 + j as f64).collect()),
         Family::GenProd { m, p, .. } => (vec![0.75, 0.625, 1.25][..*p].to_vec(), vec![1.0, -0.75, 0.5][..*m].to_vec()),
     }
@@ -51,6 +52,7 @@ pub fn xgrid(fam: &Family, n: usize) -> Vec<f64> {
         Family::GaussDecayOff => linspace(0.0, 5.0, n),
         Family::OLeary => linspace(0.0, 1.5, n),
         Family::Perm4 => linspace(0.0, 3.0, n),
+        Family::XExpSin => linspace(0.0, 4.0, n),
         Family::PolyMat(s) => (0..s.n).map(|i| i as f64).collect(),
         Family::GenProd { .. } => linspace(0.125, 2.0, n),
     }
@@ -89,6 +91,8 @@ pub enum WKind {
     Tiny,
     /// uniform 2e3 (large absolute scale)
     Huge,
+    /// uniform 1e10
+    Giant,
     /// spread 1e-3 .. 1e3
     Spread,
     /// ramp with weight i == pos set to zero
@@ -113,6 +117,7 @@ impl WKind {
             WKind::InvSigma => Some((0..n).map(|i| 1.0 / [0.5, 1.0, 2.0][i % 3]).collect()),
             WKind::Tiny => Some(vec![5e-4; n]),
             WKind::Huge => Some(vec![2e3; n]),
+            WKind::Giant => Some(vec![1e10; n]),
             WKind::Spread => Some((0..n).map(|i| 10f64.powf(-3.0 + 6.0 * (((i * 7) % n) as f64) / ((n.max(2) - 1) as f64))).collect()),
             WKind::ZeroAt(p) => Some((0..n).map(|i| if i == *p % n { 0.0 } else { ramp(i) }).collect()),
             WKind::NegAt(p) => Some((0..n).map(|i| if i == *p % n { -ramp(i) } else { ramp(i) }).collect()),
@@ -155,6 +160,7 @@ impl WKind {
             "InvSigma" => WKind::InvSigma,
             "Tiny" => WKind::Tiny,
             "Huge" => WKind::Huge,
+            "Giant" => WKind::Giant,
             "Spread" => WKind::Spread,
             o => panic!("wkind {}", o),
         }
